@@ -404,6 +404,38 @@ CLAIMS = {
              're-proved; custom callables and MatrixWeighting are not '
              'covered; floating-point agreement of BLAS and NumPy is not '
              'decided.'),
+    'C17': dict(
+        cat='proof', ref='DESIGN.md section 2, C17',
+        tech='symbolic interpretation of the __array_ufunc__ '
+             'implementations, writable_array, the array protocol methods '
+             'and the legacy ufuncs wrappers with an uninterpreted ufunc '
+             'that follows the NumPy calling protocol on object arrays with '
+             'symbolic entries; comparison with the same uninterpreted '
+             'ufunc applied to the underlying arrays (oracle); memory-'
+             'sharing and identity checks on the model values',
+        text='For __call__ with one and two outputs, reduce (default, '
+             'positive, negative, tuple and full axes, keepdims, dtype), '
+             'accumulate, outer, at and reduceat, operands given as '
+             'elements, arrays or scalars in either order, out given as '
+             'element, tensor, ndarray or partly: the data behind the '
+             'returned element are exactly what NumPy computes on the '
+             'underlying arrays, the ufunc is invoked once on the '
+             "operands' own data, a given out object is filled and "
+             'returned, the result space has the class of the operand '
+             'space and the shape and dtype of the NumPy result; '
+             'discretized results live on the same partition, on the '
+             'remaining axes after reduce (negative axes included) and on '
+             'the appended partitions after outer; keepdims and reduceat '
+             'are refused there, not ignored.  The legacy x.ufuncs.<name>() '
+             'and sum/prod/min/max wrappers of tensors and product-space '
+             'elements agree with the NumPy call; wrapping an array of '
+             'matching dtype and shape shares memory, asarray() and '
+             '__array__() do not copy, writable_array writes back on normal '
+             'and exceptional exit.',
+        note='Trusted: ' + TB + '; the NumPy ufunc dispatch protocol.  The '
+             'ufunc itself is uninterpreted (its numbers and dtype tables '
+             'are NumPy\'s); small concrete shapes; non-contiguous outs and '
+             'the weighting propagation policy are not decided.'),
 }
 
 NOT_YET = 'check not implemented yet in this commit (DESIGN.md section 6 build order)'
